@@ -11,7 +11,7 @@
       type alone (F27, repaired by ace4a06) are described in comments: the model has no pool, and
       it has one struct type per tag view, so neither is expressible as a switch. *)
 From Coq Require Import List ZArith Bool String Ascii.
-From GZ Require Import C08.Model C08.Spec C08.KModel C08.KSpec C08.Rounding.
+From GZ Require Import C08.Model C08.Spec C08.KModel C08.KSpec C08.Rounding C08.ReqModel.
 Import ListNotations.
 Open Scope Z_scope.
 Open Scope string_scope.
@@ -161,3 +161,57 @@ Proof. vm_compute. repeat split. Qed.
      per reflect.Type, ignoring the tag key; after a form unmarshal of
        Outer{In Inner `json:"in" form:"in"`}, Inner{A int `json:"a,optional" form:"a"`}
      the JSON document {} was refused with `"in" is not set`. *)
+
+
+(* ------------------------------------------------------------------ dropping the empty form values in place
+
+   5. Seeded change C08-10: GetFormValues filtered the values of a parameter into `values[:0]`,
+      i.e. over the front of the slice that r.Form holds ([touch_inplace], [compact] of ReqModel.v).
+      The map it returns is the right one, so the FIRST look at a request is served as before
+      (ReqProofs.inplace_first_look); the request is left holding values the client never sent, and
+      the second look — a validator or middleware and then the handler, two structs parsed out of
+      one request — is served from those. *)
+
+Definition ids_view : views :=
+  mkViews FNil (FCons "ids" None (TSlice (TPrim (KInt W0))) FNil) FNil FNil.
+Definition ids_request (vs : list string) : hrequest := mkHReq [] [("ids", vs)] [] (Some (JObj [])).
+Definition look_form : look := mkLook EParseForm ids_view.
+Definition look_parse : look := mkLook (EParse None) ids_view.
+Definition ints (l : list Z) : gval := VStruct [VSlice (map VInt l)].
+
+Example compact_overwrites_the_front :
+  compact [""; "2"; "3"] = ["2"; "3"; "3"] /\ compact [""; ""; "7"] = ["7"; ""; "7"].
+Proof. split; reflexivity. Qed.
+
+(* ?ids=&ids=2&ids=3 : the validator's ParseForm fills [2,3]; the handler's Parse, given the same
+   request, is accepted with [2,3,3] — not the typed decoding of what the client sent, and not what
+   the same Parse returns on that request when nobody has looked at it before *)
+Theorem drop_in_place_second_look_refuted :
+  exists r l1 l2 v w,
+    decodeK kc_form (v_form (l_views l2)) (form_values 2048 (hr_form r)) = Some v /\
+    serve_call (call_on 2048 r l2) = CAccepted [VStruct []; v; VStruct []; VStruct []] /\
+    nth_error (snd (serve_shared 2048 touch_inplace r [l1; l2])) 1 =
+      Some (CAccepted [VStruct []; w; VStruct []; VStruct []]) /\
+    w <> v.
+Proof.
+  exists (ids_request [""; "2"; "3"]), look_form, look_parse, (ints [2; 3]), (ints [2; 3; 3]).
+  vm_compute. repeat split. discriminate.
+Qed.
+
+(* the same look twice: two different answers *)
+Theorem drop_in_place_looks_dependent :
+  exists r l, nth_error (snd (serve_shared 2048 touch_inplace r [l; l])) 0 <>
+              nth_error (snd (serve_shared 2048 touch_inplace r [l; l])) 1.
+Proof. exists (ids_request [""; ""; "7"]), look_parse. vm_compute. discriminate. Qed.
+
+(* the caller's request no longer holds what the client sent *)
+Theorem drop_in_place_request_changed :
+  exists r l, fst (serve_shared 2048 touch_inplace r [l]) <> r.
+Proof. exists (ids_request [""; "2"; "3"]), look_form. vm_compute. discriminate. Qed.
+
+(* the current code on the same looks *)
+Example drop_in_place_now :
+  serve_shared 2048 touch_head (ids_request [""; "2"; "3"]) [look_form; look_parse; look_form] =
+  (ids_request [""; "2"; "3"],
+   [CAccepted [ints [2; 3]]; CAccepted [VStruct []; ints [2; 3]; VStruct []; VStruct []]; CAccepted [ints [2; 3]]]).
+Proof. vm_compute. reflexivity. Qed.
